@@ -341,8 +341,16 @@ pub(crate) fn mode(entry: &VfsEntry, octal: u32, sym: &str) -> RvResult<u32> {
                     if c != 'd' && c != 'f' && c != 'a' && c != ':' {
                         return Err(VfsError::InvalidChmodTarget(sym.to_string()).into());
                     }
-                    if entry.is_symlink() || (c == 'd' && !entry.is_dir()) || (c == 'f' && !entry.is_file()) {
-                        return Ok(mode); // target mismatch so just return the original mode
+                    if entry.is_symlink() {
+                        return Ok(mode); // links are never altered
+                    } else if (c == 'd' && !entry.is_dir()) || (c == 'f' && !entry.is_file()) {
+                        // This clause is for another kind of entry: skip it and go on with the next one
+                        while let Some(x) = chars.pop() {
+                            if x == ',' {
+                                break;
+                            }
+                        }
+                        break;
                     } else if c == ':' {
                         state = State::Group;
                         break;
